@@ -33,7 +33,7 @@ no reader, concurrent or later, ever observes only part of a batch.
 Not proved here: the clause "or after a restart" (decided by the restart histories of the
 correspondence run; a rejected *first* operation on a topic allocates the topic's block — open
 findings `emptyBlockAllocated` / `scanStopsAtEmptyBlock`); concurrent readers (C05); an append larger
-than `MAX_ALLOC` (open finding `sealThenAllocFail`).
+than `MAX_ALLOC` (finding `sealThenAllocFail`, repaired since: such an entry is now rejected before any state changes).
 -/
 namespace WalrusVerif.Props.C04
 open WalrusVerif WalrusVerif.Eng WalrusVerif.AEng
@@ -152,6 +152,11 @@ theorem C04_failed_batch_in_block (c : Cfg) (p : Proc) (i : Inst) (t : Topic) (w
     · cases h
     · rw [h.1]
   unfold writerBatchWrite at hfail ⊢
+  by_cases h0 : (decide (ps.length ≤ c.cap) && decide ((ps.map fun x => c.metaSz + x.len).sum ≤ c.maxBatchBytes) &&
+      ps.any (fun x => decide (c.metaSz + x.len > c.maxAlloc))) = true
+  · rw [if_pos h0] at hfail; simp at hfail
+  rw [if_neg h0] at hfail ⊢
+  unfold writerBatchWriteCore at hfail ⊢
   by_cases h1 : ps.length > c.cap
   · simp [h1] at hfail
   · by_cases h2 : (ps.map fun x => c.metaSz + x.len).sum > c.maxBatchBytes
